@@ -11,7 +11,10 @@ A case is a history: a list of steps (imp / reload / one lookup), each at its ow
 virtual clock and with its own answers of the stubbed remote / MDQ servers.  The abstract documents
 of the case are rendered to XML by the writer below (independent of saml2.metadata), signed through
 the xmlsec1 stand-in, and handed to the real store; every observation is canonicalised to the
-model's `Ans` and compared step by step."""
+model's `Ans` and compared step by step.
+
+Round 5: the store's own settings (MetadataStore(filter=, check_validity=)) are part of the case (`store`); the
+per-source effect of the filter is the `filt` entry of each source specification (model: SrcSpec.filt)."""
 import contextlib
 import io
 import json
@@ -29,13 +32,18 @@ AUDIT = "PysamlModel/Audit/C11.lean"
 DRIVER = "Drivers/C11.lean"
 CORRESPONDENCE = ("Drivers/C11.lean (MdStore.run under Policy.code) vs MetadataStore.imp/reload and every lookup, "
                   "observation by observation over whole histories")
-RULE = ("random histories: 1-4 sources in every configuration form (old style local file / local directories with "
-        "recurring file names / inline str or bytes / remote / mdfile dump / loader / mdq, new style class+metadata lists "
-        "incl. a trailing directory and MetaDataMD; remote and MDQ answered by real requests Response objects with "
+RULE = ("random histories on a store built with or without a `filter` callable (refuse by entityID / demand an entity "
+        "attribute value / delete descriptor kinds; answer None or {}) and with check_validity True / False: "
+        "1-4 sources in every configuration form (old style local file / local directories with "
+        "recurring file names / inline str or bytes / remote with or without node_name / mdfile dump / loader / mdq as dict "
+        "or as bare URL, new style class+metadata lists incl. a trailing directory and MetaDataMD; every way an entry "
+        "can be wrong: remote without url or not a dict, unknown type, no class / metadata key, unknown loader class "
+        "or module; remote and MDQ answered by real requests Response objects with "
         "varying Content-Type) x document bytes (UTF-8 with/without declaration or BOM, UTF-16, ISO-8859-1; non-ASCII "
         "entityIDs, Locations, registration authorities, category values) x random documents (1-6 entities, repeated ids, any mix of roles, 0-4 endpoints per service "
         "and binding, key use signing/encryption/absent, validUntil around now, protocol lists with/without SAML 2.0, "
-        "entity attributes, registration info, requested attributes) x signature state x certificate configured or "
+        "entity attributes, registration info, requested attributes, unknown extension elements in entity and role "
+        "Extensions, key descriptors without usable certificate) x signature state x certificate configured or "
         "not; load, reload with the k-th source failing (missing, malformed, bad signature, HTTP error status with or "
         "without a loadable body, too old), MDQ "
         "fetch / refresh sequences under the virtual clock; after every mutating step every observation point is "
@@ -66,6 +74,9 @@ ASSUMPTIONS = [
     "an mdfile (MetaDataMD) source is fed the dump pysaml2's own dumps() makes of the document at the same instant; "
     "MetaDataMD.load applies no filter of its own, stale or hand-made dumps are outside",
     "validUntil is evaluated when a document is read (the code never re-evaluates it afterwards)",
+    "which sources receive the store's filter is a harness rendering (_eff_filter: MetadataStore.load hands it to local "
+    "files and remote sources, not to inline / mdq; class-style imp to every class; MetaDataMD.load never filters) of "
+    "the per-source `filt` the model takes; the generated filters are pure functions of the descriptor dictionary",
 ]
 EXHAUSTIVE = False
 PARALLEL = True
@@ -95,6 +106,8 @@ ROLE_TAG = {"spsso": "SPSSODescriptor", "idpsso": "IDPSSODescriptor", "authn_aut
             "affiliation": "AffiliationDescriptor"}
 BINDINGS = [S.BINDING_POST, S.BINDING_REDIRECT, S.BINDING_SOAP, S.BINDING_ARTIFACT]
 CERTS = ["idp_sign", "idp_sign2", "idp_enc", "member2", "sp", "sp_enc1", "attacker"]
+FILTERS = True           # switch: stores constructed with a `filter` callable are generated
+COMMON_CAT = "https://cat.c11.example/research"   # a category value many entities share (what a filter may demand)
 FED_KEY = "member2"      # the federation operator's signing key; its certificate is the one configured
 P11 = "urn:oasis:names:tc:SAML:1.1:protocol"
 ECS = "http://macedir.org/entity-category-support"
@@ -127,6 +140,15 @@ def consts():
     return {"p2": samlp.NAMESPACE, "ec": M.ENTITY_CATEGORY, "true": "true"}
 
 
+def default_fresh():
+    """DEFAULT_FRESHNESS_PERIOD of the code, in seconds (what an MDQ source given positionally gets)"""
+    import saml2.mdstore as M
+    from saml2.time_util import parse_duration
+
+    sign, d = parse_duration(M.DEFAULT_FRESHNESS_PERIOD)
+    return (d["tm_mday"] * 86400 + d["tm_hour"] * 3600 + d["tm_min"] * 60 + int(d["tm_sec"])) * (1 if sign == "+" else -1)
+
+
 # ------------------------------------------------------------------ document writer
 
 NS = ('xmlns:md="urn:oasis:names:tc:SAML:2.0:metadata" xmlns:ds="http://www.w3.org/2000/09/xmldsig#" '
@@ -135,17 +157,28 @@ NS = ('xmlns:md="urn:oasis:names:tc:SAML:2.0:metadata" xmlns:ds="http://www.w3.o
 X = S.xesc
 
 
+NOCERT = {  # a KeyDescriptor that carries no usable certificate
+    "empty": "<ds:X509Data><ds:X509Certificate></ds:X509Certificate></ds:X509Data>",
+    "blank": "<ds:X509Data><ds:X509Certificate>  \n </ds:X509Certificate></ds:X509Data>",
+    "no-x509data": "<ds:KeyName>k1</ds:KeyName>",
+    "subject-only": "<ds:X509Data><ds:X509SubjectName>CN=c11</ds:X509SubjectName></ds:X509Data>",
+}
+
+
 def role_xml(r):
     kind = r["kind"]
     tag = ROLE_TAG[kind]
     keys = "".join(
-        "<md:KeyDescriptor%s><ds:KeyInfo><ds:X509Data><ds:X509Certificate>%s</ds:X509Certificate></ds:X509Data>"
-        "</ds:KeyInfo></md:KeyDescriptor>" % (' use="%s"' % k["use"] if k["use"] else "", S.cert_b64(k["cert"]))
+        "<md:KeyDescriptor%s><ds:KeyInfo>%s</ds:KeyInfo></md:KeyDescriptor>"
+        % (' use="%s"' % k["use"] if k["use"] else "",
+           NOCERT[k["nocert"]] if k.get("nocert") else
+           "<ds:X509Data><ds:X509Certificate>%s</ds:X509Certificate></ds:X509Data>" % S.cert_b64(k["cert"]))
         for k in r["keys"])
     if kind == "affiliation":
         return ('<md:AffiliationDescriptor affiliationOwnerID="https://owner.c11.example/aff">'
                 "<md:AffiliateMember>https://member.c11.example/m</md:AffiliateMember>%s</md:AffiliationDescriptor>" % keys)
-    out = ['<md:%s protocolSupportEnumeration="%s">' % (tag, X(" ".join(r["protocols"]))), keys]
+    out = ['<md:%s protocolSupportEnumeration="%s">' % (tag, X(" ".join(r["protocols"]))),
+           "<md:Extensions>%s</md:Extensions>" % unk_xml(r["unk_ext"]) if r.get("unk_ext") else "", keys]
     for svc, xtag, indexed, _ in SERVICES[kind]:
         for ep in r["endpoints"]:
             if ep["svc"] != svc:
@@ -168,6 +201,18 @@ def role_xml(r):
     return "".join(out)
 
 
+UNK_EXT = [  # elements of no schema pysaml2 knows: they stay ExtensionElement objects and go through to_dict as such
+    '<c11x:Policy xmlns:c11x="urn:example:c11:ext" level="3" scope.kind="fed"><c11x:Item code="7">text</c11x:Item>'
+    '<c11x:Item>m\u00fcnchen</c11x:Item></c11x:Policy>',
+    '<c11x:Flag xmlns:c11x="urn:example:c11:ext"/>',
+    '<c11y:Note xmlns:c11y="urn:example:c11:other" xml:lang="en">free text</c11y:Note>',
+]
+
+
+def unk_xml(sel):
+    return "".join(UNK_EXT[i] for i in sel)
+
+
 def ent_xml(e, root_attrs="", sig=""):
     vu = ' validUntil="%s"' % S.fmt_time(e["valid_until"]) if e.get("valid_until") is not None else ""
     out = ['<md:EntityDescriptor %sentityID="%s" ID="%s"%s>' % (root_attrs, X(e["id"]), X(e["tag"]), vu), sig]
@@ -187,6 +232,9 @@ def ent_xml(e, root_attrs="", sig=""):
                     '<saml:Attribute Name="%s" NameFormat="urn:oasis:names:tc:SAML:2.0:attrname-format:uri">%s</saml:Attribute>'
                     % (X(n), "".join("<saml:AttributeValue>%s</saml:AttributeValue>" % X(v) for v in vals))
                     for n, vals in chunk))
+    if e.get("unk_ext"):   # unknown extension elements before / between / after the known ones
+        for n, i in enumerate(e["unk_ext"]):
+            ext.insert((i + n) % (len(ext) + 1), UNK_EXT[i])
     if ext:
         out.append("<md:Extensions>%s</md:Extensions>" % "".join(ext))
     out.extend(role_xml(r) for r in e["roles"])
@@ -279,6 +327,17 @@ class G:
         self.mode = rng.choice(["clean", "clean", "f9"])
         self.mdq_cert = {}
         self.now = S.NOW0 + rng.randrange(0, 100000)
+        # the STORE's own configuration: MetadataStore(filter=..., check_validity=...)
+        self.store = {"filter": None, "chk": True}
+        if FILTERS and rng.random() < 0.3:
+            need = None
+            if rng.random() < 0.4:
+                need = [rng.choice([_st["c"]["ec"], _st["c"]["ec"], ECS]), COMMON_CAT]
+            self.store["filter"] = {"drop": rng.sample(self.eids, rng.choice([0, 1, 1, 2])), "need": need,
+                                    "strip": rng.sample(KINDS, rng.choice([0, 1, 1, 2, 3])),
+                                    "empty": rng.random() < 0.3}
+        if rng.random() < 0.12:
+            self.store["chk"] = False
 
     def tag(self, p="t"):
         self.n += 1
@@ -310,13 +369,19 @@ class G:
                     ep["location"] = eps[-1]["location"]
                 eps.append(ep)
         keys = [{"use": r.choice(USES), "cert": r.choice(CERTS)} for _ in range(r.choice([0, 1, 1, 2, 3]))]
+        for k in keys:
+            if r.random() < 0.12:
+                k["nocert"] = r.choice(sorted(NOCERT))
         ras = []
         if kind == "spsso":
             for a in range(r.choice([0, 0, 1, 2])):
                 for j in range(r.randint(1, 3)):
                     ras.append({"acs": str(a), "name": "urn:oid:2.5.4.%d" % r.randrange(3, 9),
                                 "required": r.choice(["true", "false", None])})
-        return {"kind": kind, "protocols": protos, "endpoints": eps, "keys": keys, "req_attrs": ras}
+        role = {"kind": kind, "protocols": protos, "endpoints": eps, "keys": keys, "req_attrs": ras}
+        if r.random() < 0.1:
+            role["unk_ext"] = r.sample(range(len(UNK_EXT)), r.randint(1, 2))
+        return role
 
     def ent(self, eid, now, single):
         r = self.rng
@@ -331,7 +396,8 @@ class G:
         attrs = []
         for _ in range(r.choice([0, 0, 1, 1, 2, 3])):
             name = r.choice([_st["c"]["ec"], _st["c"]["ec"], ECS, "urn:oid:1.3.6.1.4.1.5923.1.1.1.7"])
-            attrs.append([name, ["https://cat.c11.example/%s/%d%s" % (tag, r.randrange(4), "/cat\u00e9gorie" if r.random() < 0.1 else "")
+            attrs.append([name, [COMMON_CAT if r.random() < 0.3 else
+                                 "https://cat.c11.example/%s/%d%s" % (tag, r.randrange(4), "/cat\u00e9gorie" if r.random() < 0.1 else "")
                                  for _ in range(r.randint(1, 2))]])
         regs = []
         for _ in range(r.choice([0, 0, 1, 1, 1, 2])):
@@ -340,6 +406,8 @@ class G:
                          "instant": r.choice([None, S.fmt_time(now - 86400 * r.randint(1, 900))]),
                          "policies": [[l, "https://reg.c11.example/policy/%s" % l] for l in langs]})
         e = {"id": eid, "tag": tag, "valid_until": self.vu(now), "roles": roles, "attrs": attrs, "regs": regs}
+        if r.random() < 0.25:
+            e["unk_ext"] = r.sample(range(len(UNK_EXT)), r.randint(1, 2))
         if len(attrs) >= 2 and r.random() < 0.4:
             e["attr_split"] = r.randint(1, len(attrs) - 1)
         return e
@@ -390,10 +458,15 @@ class G:
         if kind == "mdq":
             sp["cert"] = self.mdq_cert.setdefault(key, sp["cert"])
             sp["fresh"] = r.choice([600, 3600, 43200])
+            if not sp["cert"] and r.random() < 0.3:   # {"mdq": ["https://..."]}: the URL alone, everything default
+                sp["form"] = "positional"
+                sp["fresh"] = _st["default_fresh"]
         elif kind != "loader":
             sp["fetch"] = self.fetch(now, kind, fail)
             if kind == "remote" and r.random() < 0.15:
                 sp["chk"] = False
+            if kind == "remote" and r.random() < 0.35:   # old style only: an explicit node_name (that of the root)
+                sp["node_name"] = True
         return sp
 
     def break_spec(self, sp, now):
@@ -404,6 +477,7 @@ class G:
             sp["kind"] = "loader"
             sp["key"] = sp["key"] + "#loader"
             sp["cert"] = False
+            sp.pop("form", None)
             return
         if how == "signature" and sp["kind"] in ("file", "remote"):
             sp["cert"] = True
@@ -430,7 +504,8 @@ class G:
         if fail_at is not None and fail_at < n:
             self.break_spec(sps[fail_at], now)
         style = "new"
-        if any(s["kind"] in ("mdq", "loader") or not s["chk"] for s in sps) or r.random() < 0.4:
+        if any(s["kind"] == "mdq" or not s["chk"] for s in sps) or r.random() < 0.4 or \
+                (any(s["kind"] == "loader" for s in sps) and r.random() < 0.5):
             style = "old"
             order = []
             for s in sps:  # an old-style specification is a dict type -> sources: same types are contiguous
@@ -460,6 +535,10 @@ class G:
             if s["kind"] == "file" and r.random() < 0.15 and not op.get("force_dirs"):
                 s["form"] = "mdfile"      # a dump of already digested metadata: {"mdfile": [...]} / MetaDataMD
                 s["cert"] = False
+        for s in sps:   # a source that cannot be constructed: every way the configuration can be wrong
+            if s["kind"] == "loader" and "form" not in s:
+                s["form"] = r.choice(["loader", "remote-no-url", "remote-not-a-dict", "unknown-type"] if op["style"] == "old"
+                                     else ["loader", "no-class", "unknown-loader", "unknown-module", "no-metadata"])
         if op["style"] == "old":
             order = []
             for s in sps:  # an old-style specification is a dict type -> sources: same types are contiguous
@@ -550,7 +629,22 @@ class G:
 
 
 def _cfgtype(s):
-    return "mdfile" if s.get("form") == "mdfile" else s["kind"]
+    f = s.get("form")
+    if s["kind"] == "loader":
+        return {"remote-no-url": "remote", "remote-not-a-dict": "remote", "unknown-type": "bogus"}.get(f, "loader")
+    return "mdfile" if f == "mdfile" else s["kind"]
+
+
+def _eff_filter(store, style, s):
+    """the store's filter as far as it reaches the source built for `s`: MetadataStore.load hands it to local
+    files and remote sources (not to inline, mdq), class-style imp to every class; MetaDataMD.load never
+    runs do_entity_descriptor"""
+    if not store.get("filter") or _cfgtype(s) in ("mdfile", "mdq", "loader", "bogus") or s["kind"] in ("mdq", "loader"):
+        return None
+    if style == "old" and s["kind"] == "inline":
+        return None
+    f = store["filter"]
+    return {"drop": f["drop"], "need": f["need"], "strip": f["strip"]}
 
 
 def case_of(g, steps):
@@ -558,7 +652,15 @@ def case_of(g, steps):
         if "specs" in st["op"]:
             g.shape(st["op"])
     g.adjust(steps)
-    return {"consts": _st["c"], "mode": g.mode, "steps": steps}
+    for st in steps:    # what the store's own settings mean for each source (see _eff_filter; imp, old style:
+        op = st["op"]   # `if not self.check_validity: val["check_validity"] = False` reaches the dict entries)
+        for s in op.get("specs", []):
+            if not g.store["chk"] and op["style"] == "old" and s["kind"] == "remote":
+                s["chk"] = False
+            if op["style"] != "old":
+                s.pop("node_name", None)
+            s["filt"] = _eff_filter(g.store, op["style"], s)
+    return {"consts": _st["c"], "mode": g.mode, "store": g.store, "steps": steps}
 
 
 def qsteps(now, qs, mdq=None):
@@ -714,6 +816,7 @@ G.mdq_answers = _mdq_answers
 
 def gen_cases(rng, tier):
     _st["c"] = consts()
+    _st["default_fresh"] = default_fresh()
     n = 360 if tier == "quick" else 4000
     for i in range(n):
         g = G(rng, tier)
@@ -783,15 +886,41 @@ def _mdq_url(src, eid):
     return "%s/entities/%s" % (src.rstrip("/"), MetaDataMDX.sha1_entity_transform(eid))
 
 
-def _build_spec(op, tmp, remote, listing):
+MD_NS = "urn:oasis:names:tc:SAML:2.0:metadata:"
+
+
+def _build_spec(op, tmp, remote, listing, store=None):
     """abstract source list -> the configuration value MetadataStore.imp / reload takes"""
     from saml2.mdstore import InMemoryMetaData
 
+    store = store or {"filter": None, "chk": True}
     old, new = {}, []
     seen_dirs = set()
     for sp in op["specs"]:
         kind, f = sp["kind"], sp["fetch"]
         cert = S.cert_path(FED_KEY) if sp["cert"] else None
+        form = sp.get("form")
+        if kind == "loader" and form not in (None, "loader"):
+            # a source the store cannot even construct: each way the configuration value can be wrong
+            if form == "remote-no-url":
+                old.setdefault("remote", []).append({"cert": S.cert_path(FED_KEY), "check_validity": False})
+            elif form == "remote-not-a-dict":
+                old.setdefault("remote", []).append("https://plain.c11.example/md")
+            elif form == "unknown-type":
+                old.setdefault("bogus", []).append(os.path.join(tmp, "nothing.xml"))
+            else:
+                old.setdefault("loader", []).append(lambda: b"")
+            if form == "no-class":
+                new.append({"metadata": [(os.path.join(tmp, "nothing.xml"),)]})
+            elif form == "unknown-loader":
+                new.append({"class": "saml2.mdstore.NoSuchLoader", "metadata": [(os.path.join(tmp, "nothing.xml"),)]})
+            elif form == "unknown-module":
+                new.append({"class": "saml2.no_such_module_c11.Loader", "metadata": [(os.path.join(tmp, "nothing.xml"),)]})
+            elif form == "no-metadata":
+                new.append({"class": "saml2.mdstore.MetaDataFile"})
+            else:
+                new.append({"class": "saml2.mdstore.MetaDataLoader", "metadata": [(lambda: b"",)]})
+            continue
         if kind == "file" and sp.get("dir"):
             dpath = os.path.join(tmp, sp["dir"])
             if dpath not in seen_dirs:      # first file of the directory: start from an empty directory
@@ -848,16 +977,50 @@ def _build_spec(op, tmp, remote, listing):
             d = {"url": sp["key"]}
             if cert:
                 d["cert"] = cert
-            if not sp["chk"]:
+            if not sp["chk"] and store["chk"]:   # a store built with check_validity=False writes the entry itself
                 d["check_validity"] = False
+            if sp.get("node_name"):
+                single = f["t"] == "doc" and not f["doc"]["group"]
+                d["node_name"] = MD_NS + ("EntityDescriptor" if single else "EntitiesDescriptor")
             old.setdefault("remote", []).append(d)
             new.append({"class": "saml2.mdstore.MetaDataExtern", "metadata": [(sp["key"], cert) if cert else (sp["key"],)]})
+        elif form == "positional":
+            old.setdefault("mdq", []).append(sp["key"])
         else:
             d = {"url": sp["key"], "freshness_period": "PT%dS" % sp["fresh"]}
             if cert:
                 d["cert"] = cert
             old.setdefault("mdq", []).append(d)
     return old if op.get("style") == "old" else new
+
+
+EA_CLASS = "urn:oasis:names:tc:SAML:metadata:attribute&EntityAttributes"
+
+
+def _make_filter(fd):
+    """the callable a store is constructed with, from its description: dict -> dict | None / {}"""
+    if not fd:
+        return None
+
+    def flt(ent):
+        if ent.get("entity_id") in fd["drop"]:
+            return {} if fd.get("empty") else None
+        if fd.get("need"):
+            name, val = fd["need"]
+            found = False
+            for elem in (ent.get("extensions") or {}).get("extension_elements", []):
+                if elem.get("__class__") != EA_CLASS:
+                    continue
+                for attr in elem.get("attribute", []):
+                    if attr.get("name") == name and any(v.get("text") == val for v in attr.get("attribute_value", [])):
+                        found = True
+            if not found:
+                return {} if fd.get("empty") else None
+        for k in fd["strip"]:
+            ent.pop(k + "_descriptor", None)
+        return ent
+
+    return flt
 
 
 def _kinds(ent):
@@ -939,7 +1102,9 @@ def run_impl(case):
     quiet = contextlib.redirect_stderr(io.StringIO())  # do_entity_descriptor prints every repeated entityID
     quiet.__enter__()
     try:
-        store = MetadataStore(_st["attrc"], _st["conf"])
+        cfg = case.get("store") or {"filter": None, "chk": True}
+        store = MetadataStore(_st["attrc"], _st["conf"], filter=_make_filter(cfg.get("filter")),
+                              check_validity=cfg.get("chk", True))
         store.http.send = lambda url, **kw: _resp(*remote.get(url, (404, b"", None)), url=url)
         for st in case["steps"]:
             if st.get("mdq") is not None:
@@ -947,7 +1112,7 @@ def run_impl(case):
             op = st["op"]
             with S.clock(st["now"]):
                 if op["t"] in ("imp", "reload"):
-                    spec = _build_spec(op, tmp, remote, M.os.listing)
+                    spec = _build_spec(op, tmp, remote, M.os.listing, cfg)
                     try:
                         if op["t"] == "imp":
                             store.imp(spec)
@@ -1073,6 +1238,29 @@ def shrink(case):
     for i, st in enumerate(steps):          # a mutating step
         if st["op"]["t"] != "q" and len(steps) > 1:
             yield _without(case, {i})
+    cfg = case.get("store") or {}
+    if cfg.get("filter") or cfg.get("chk") is False:      # the store's own settings, one at a time
+        for part in ("filter", "chk", "drop", "need", "strip"):
+            c = json.loads(json.dumps(case))
+            fd = c["store"].get("filter")
+            if part == "filter" and fd:
+                c["store"]["filter"] = None
+            elif part == "chk" and cfg.get("chk") is False and not any(
+                    not sp["chk"] for st in steps for sp in st["op"].get("specs", [])):
+                c["store"]["chk"] = True
+            elif part == "drop" and fd and fd["drop"]:
+                fd["drop"] = []
+            elif part == "need" and fd and fd["need"]:
+                fd["need"] = None
+            elif part == "strip" and fd and fd["strip"]:
+                fd["strip"] = []
+            else:
+                continue
+            for st in c["steps"]:
+                op = st["op"]
+                for sp in op.get("specs", []):
+                    sp["filt"] = _eff_filter(c["store"], op.get("style"), sp)
+            yield c
     n = 0
     for i, st in enumerate(steps):
         op = st["op"]
@@ -1119,9 +1307,12 @@ def shrink(case):
 
 
 def distribution(recs):
-    d = {"steps": 0, "ops": {}, "answers": {}, "branches": {}, "modes": {}, "sources": {}, "sig_x_cert": {}}
+    d = {"steps": 0, "ops": {}, "answers": {}, "branches": {}, "modes": {}, "sources": {}, "sig_x_cert": {}, "store": {}}
     for r in recs:
         case = r["case"]
+        cfg = case.get("store") or {}
+        for k2 in (["filter"] if cfg.get("filter") else ["no-filter"]) + ([] if cfg.get("chk", True) else ["check_validity=False"]):
+            d["store"][k2] = d["store"].get(k2, 0) + 1
         d["modes"][case.get("mode", "corpus")] = d["modes"].get(case.get("mode", "corpus"), 0) + 1
         for st, o in zip(case["steps"], r["impl"].get("obs", [])):
             d["steps"] += 1
@@ -1133,6 +1324,9 @@ def distribution(recs):
             for sp in op.get("specs", []):
                 form = "%s%s/%s" % (_cfgtype(sp), "-in-directory" if sp.get("dir") else "", op.get("style"))
                 d["sources"][form] = d["sources"].get(form, 0) + 1
+                for extra in ([sp["kind"] + ":" + sp["form"]] if sp.get("form") not in (None, "mdfile") else []) + \
+                        (["remote:node_name"] if sp.get("node_name") else []) + (["with-filter"] if sp.get("filt") else []):
+                    d["sources"][extra] = d["sources"].get(extra, 0) + 1
                 if sp["fetch"]["t"] == "doc":
                     e = "enc:" + sp["fetch"]["doc"].get("enc", "utf-8")
                     d["sources"][e] = d["sources"].get(e, 0) + 1
